@@ -62,7 +62,8 @@ Record proc : Set := {
   p_who : who;              (* [] for a plain import (and for a traced import no tracer of which accepts the file) *)
   p_caching : bool;         (* all(bytecode_caching_allowed): the cache is consulted and written *)
   p_write : bool;           (* the cache directory is writable and bytecode writing is not disabled *)
-  p_edit : bool }.          (* the source was edited before this process *)
+  p_edit : bool;            (* the source was edited before this process *)
+  p_raises : bool }.        (* the module body raises at import in this process *)
 
 (* what the process observes: whose code ran, and whether the node table in memory belongs to that code *)
 Definition obs : Set := (who * bool)%type.
@@ -75,7 +76,9 @@ Definition step (s : fs) (p : proc) : fs * obs :=
   let compile_and_write :=
     if p_write p
     then ({| ver := v; next_inst := next_inst s + 1; pyc := upd (pyc s) nm (Some fresh);
-             pkl := if book (p_who p) then upd (pkl s) nm (Some (next_inst s)) else pkl s |}, (p_who p, true))
+             (* the table beside the rewritten entry is removed before the body runs, the new one written after it has run *)
+             pkl := if book (p_who p) && negb (p_raises p) then upd (pkl s) nm (Some (next_inst s)) else upd (pkl s) nm None |},
+            (p_who p, true))
     else (s1, (p_who p, true)) in
   if negb (p_caching p) then (s1, (p_who p, true))                 (* get_code: compile directly, nothing read or written *)
   else
